@@ -1,8 +1,355 @@
-(* Property C20 -- theorems only (placeholder, extended below). *)
-From Coq Require Import Reals ZArith List Bool.
-From DV Require Import Base.PyList Base.C20_Num Model.C20_BenchSpec Proofs.C20_GenEq Gen.C20_bench_gen.
+(* Property C20 -- theorems only.  They are stated about the definitions REGENERATED from the working tree
+   (coq/Gen/C20_bench_gen.v: bm_* = deap/benchmarks/__init__.py, bin_* = binary.py, gp_* = gp.py,
+   mp_* = movingpeaks.py, tl_* = tools.py) and proved from Proofs/C20_GenEq.v (generated = published
+   formula, for every input) and Proofs/C20_Spec.v (facts about the published formulas).
+   Over the reals: floating-point rounding is outside these theorems (see design_notes/C20.md). *)
+From Coq Require Import Reals ZArith List Bool Lia.
+From DV Require Import Base.PyList Base.C20_Num Model.C20_BenchSpec Proofs.C20_Reals Proofs.C20_Spec Proofs.C20_GenEq
+  Gen.C20_bench_gen.
 Import ListNotations.
+Local Open Scope R_scope.
 
-Theorem C20_sphere_eq_spec : forall x : list R, bm_sphere x = spec_bm_sphere x.
-Proof. exact ge_sphere. Qed.
-Print Assumptions C20_sphere_eq_spec.
+(* ================================================================================================ *)
+(* 1. every benchmark returns the value of its published defining formula (spec_* of               *)
+(*    Model/C20_BenchSpec.v), for every input of the stated shape                                   *)
+(* ================================================================================================ *)
+
+(* continuous single-objective functions (deap/benchmarks/__init__.py) *)
+Theorem C20_continuous_are_published :
+  (forall x : list R, bm_plane x = spec_bm_plane x) /\
+  (forall x : list R, bm_sphere x = spec_bm_sphere x) /\
+  (forall x : list R, bm_cigar x = spec_bm_cigar x) /\
+  (forall x : list R, bm_rosenbrock x = spec_bm_rosenbrock x) /\
+  (forall x : list R, bm_h1 x = spec_bm_h1 x) /\
+  (forall x : list R, bm_ackley x = spec_bm_ackley x) /\
+  (forall x : list R, bm_bohachevsky x = spec_bm_bohachevsky x) /\
+  (forall x : list R, bm_griewank x = spec_bm_griewank x) /\
+  (forall x : list R, bm_rastrigin x = spec_bm_rastrigin x) /\
+  (forall x : list R, bm_rastrigin_scaled x = spec_bm_rastrigin_scaled x) /\
+  (forall x : list R, bm_rastrigin_skew x = spec_bm_rastrigin_skew x) /\
+  (forall x : list R, bm_schaffer x = spec_bm_schaffer x) /\
+  (forall x : list R, bm_schwefel x = spec_bm_schwefel x) /\
+  (forall x : list R, bm_himmelblau x = spec_bm_himmelblau x) /\
+  (forall (x : list R) a c, bm_shekel x a c = spec_bm_shekel x a c).
+Proof.
+  repeat apply conj.
+  - exact ge_plane.
+  - exact ge_sphere.
+  - exact ge_cigar.
+  - exact ge_rosenbrock.
+  - exact ge_h1.
+  - exact ge_ackley.
+  - exact ge_bohachevsky.
+  - exact ge_griewank.
+  - exact ge_rastrigin.
+  - exact ge_rastrigin_scaled.
+  - exact ge_rastrigin_skew.
+  - exact ge_schaffer.
+  - exact ge_schwefel.
+  - exact ge_himmelblau.
+  - exact ge_shekel.
+Qed.
+
+(* multi-objective functions *)
+Theorem C20_multiobjective_are_published :
+  (forall x : list R, bm_kursawe x = spec_bm_kursawe x) /\
+  (forall x : list R, bm_schaffer_mo x = spec_bm_schaffer_mo x) /\
+  (forall x : list R, bm_zdt1 x = spec_bm_zdt1 x) /\
+  (forall x : list R, bm_zdt2 x = spec_bm_zdt2 x) /\
+  (forall x : list R, bm_zdt3 x = spec_bm_zdt3 x) /\
+  (forall x : list R, bm_zdt4 x = spec_bm_zdt4 x) /\
+  (forall x : list R, bm_zdt6 x = spec_bm_zdt6 x) /\
+  (forall x : list R, bm_fonseca x = spec_bm_fonseca x) /\
+  (forall x : list R, bm_poloni x = spec_bm_poloni x) /\
+  (forall (x : list R) lambda, bm_dent x lambda = spec_bm_dent x lambda) /\
+  (forall (x : list R) M, (1 <= M)%Z -> (M - 1 <= zlen x)%Z -> bm_dtlz1 x M = spec_bm_dtlz1 x M) /\
+  (forall (x : list R) M, (1 <= M)%Z -> (M - 1 <= zlen x)%Z -> bm_dtlz2 x M = spec_bm_dtlz2 x M) /\
+  (forall (x : list R) M, (1 <= M)%Z -> (M - 1 <= zlen x)%Z -> bm_dtlz3 x M = spec_bm_dtlz3 x M) /\
+  (forall (x : list R) M alpha, (1 <= M)%Z -> (M - 1 <= zlen x)%Z -> bm_dtlz4 x M alpha = spec_bm_dtlz4 x M alpha) /\
+  (forall (x : list R) M, (2 <= M)%Z -> (M - 1 <= zlen x)%Z -> bm_dtlz5 x M = spec_bm_dtlz5 x M) /\
+  (forall (x : list R) M, (2 <= M)%Z -> (M - 1 <= zlen x)%Z -> bm_dtlz6 x M = spec_bm_dtlz6 x M) /\
+  (forall (x : list R) M, (1 <= M)%Z -> bm_dtlz7 x M = spec_bm_dtlz7 x M).
+Proof.
+  repeat apply conj.
+  - exact ge_kursawe.
+  - exact ge_schaffer_mo.
+  - exact ge_zdt1.
+  - exact ge_zdt2.
+  - exact ge_zdt3.
+  - exact ge_zdt4.
+  - exact ge_zdt6.
+  - exact ge_fonseca.
+  - exact ge_poloni.
+  - exact ge_dent.
+  - exact ge_dtlz1.
+  - exact ge_dtlz2.
+  - exact ge_dtlz3.
+  - exact ge_dtlz4.
+  - exact ge_dtlz5.
+  - exact ge_dtlz6.
+  - exact ge_dtlz7.
+Qed.
+
+(* symbolic-regression targets (deap/benchmarks/gp.py) *)
+Theorem C20_gp_are_published :
+  (forall d : list R, gp_kotanchek d = spec_gp_kotanchek d) /\
+  (forall d : list R, gp_salustowicz_1d d = spec_gp_salustowicz_1d d) /\
+  (forall d : list R, gp_salustowicz_2d d = spec_gp_salustowicz_2d d) /\
+  (forall d : list R, gp_unwrapped_ball d = spec_gp_unwrapped_ball d) /\
+  (forall d : list R, gp_rational_polynomial d = spec_gp_rational_polynomial d) /\
+  (forall d : list R, gp_sin_cos d = spec_gp_sin_cos d) /\
+  (forall d : list R, gp_ripple d = spec_gp_ripple d) /\
+  (forall d : list R, gp_rational_polynomial2 d = spec_gp_rational_polynomial2 d).
+Proof.
+  repeat apply conj.
+  - exact ge_kotanchek.
+  - exact ge_salustowicz_1d.
+  - exact ge_salustowicz_2d.
+  - exact ge_unwrapped_ball.
+  - exact ge_rational_polynomial.
+  - exact ge_sin_cos.
+  - exact ge_ripple.
+  - exact ge_rational_polynomial2.
+Qed.
+
+(* binary functions, over Z (deap/benchmarks/binary.py) *)
+Theorem C20_binary_are_published :
+  (forall b, bin_trap b = spec_bin_trap b) /\
+  (forall b, bin_inv_trap b = spec_bin_inv_trap b) /\
+  (forall b, (1 <= length b)%nat -> bin_chuang_f1 b = spec_bin_chuang_f1 b) /\
+  (forall b, (2 <= length b)%nat -> is_bit (last2_bit b) -> is_bit (last_bit b) -> bin_chuang_f2 b = spec_bin_chuang_f2 b) /\
+  (forall b, (3 <= length b)%nat -> bin_chuang_f3 b = spec_bin_chuang_f3 b) /\
+  (forall b order, (1 <= order)%Z -> Forall is_bit b -> bin_royal_road1 b order = spec_bin_royal_road1 b order) /\
+  (forall b order, (1 <= order)%Z -> Forall is_bit b -> bin_royal_road2 b order = spec_bin_royal_road2 b order).
+Proof.
+  repeat apply conj.
+  - exact ge_trap.
+  - exact ge_inv_trap.
+  - exact ge_chuang_f1.
+  - exact ge_chuang_f2.
+  - exact ge_chuang_f3.
+  - exact ge_royal_road1.
+  - exact ge_royal_road2.
+Qed.
+
+(* the three peak functions of deap/benchmarks/movingpeaks.py *)
+Theorem C20_peaks_are_published :
+  (forall (x p : list R) h w, mp_cone x p h w = spec_mp_cone x p h w) /\
+  (forall (x p : list R) h w, mp_sphere x p h w = spec_mp_sphere x p h w) /\
+  (forall (x p : list R) h w, mp_function1 x p h w = spec_mp_function1 x p h w).
+Proof.
+  repeat apply conj.
+  - exact ge_mp_cone.
+  - exact ge_mp_sphere.
+  - exact ge_mp_function1.
+Qed.
+
+(* one entry per objective for the scalable family *)
+Theorem C20_dtlz_one_entry_per_objective : forall (x : list R) M alpha, (2 <= M)%Z -> (M - 1 <= zlen x)%Z ->
+  length (bm_dtlz1 x M) = Z.to_nat M /\ length (bm_dtlz2 x M) = Z.to_nat M /\
+  length (bm_dtlz3 x M) = Z.to_nat M /\ length (bm_dtlz4 x M alpha) = Z.to_nat M /\
+  length (bm_dtlz5 x M) = Z.to_nat M /\ length (bm_dtlz6 x M) = Z.to_nat M /\
+  length (bm_dtlz7 x M) = Z.to_nat M.
+Proof.
+  intros x M alpha H1 H2.
+  rewrite ge_dtlz1, ge_dtlz2, ge_dtlz3, ge_dtlz4, ge_dtlz5, ge_dtlz6, ge_dtlz7 by (try assumption; lia).
+  apply dtlz_lengths; assumption.
+Qed.
+
+
+(* section 1 -- conjunction of the theorems above; carries the Print Assumptions of this group
+   (one call per group: each call costs about 1.7 s) *)
+Theorem C20_sec1_published : ltac:(let t := type of (conj C20_continuous_are_published (conj C20_multiobjective_are_published (conj C20_gp_are_published (conj C20_binary_are_published (conj C20_peaks_are_published C20_dtlz_one_entry_per_objective))))) in exact t).
+Proof. exact (conj C20_continuous_are_published (conj C20_multiobjective_are_published (conj C20_gp_are_published (conj C20_binary_are_published (conj C20_peaks_are_published C20_dtlz_one_entry_per_objective))))). Qed.
+Print Assumptions C20_sec1_published.
+
+(* ================================================================================================ *)
+(* 2. tabulated optima of the continuous single-objective functions                                 *)
+(* ================================================================================================ *)
+Theorem C20_optima_exact : forall n,
+  bm_plane (zeros n) = [0] /\ bm_sphere (zeros n) = [0] /\ bm_cigar (zeros n) = [0] /\
+  bm_rosenbrock (ones_R n) = [0] /\ ((1 <= n)%nat -> bm_ackley (zeros n) = [0]) /\
+  bm_bohachevsky (zeros n) = [0] /\ bm_griewank (zeros n) = [0] /\ bm_rastrigin (zeros n) = [0] /\
+  bm_rastrigin_scaled (zeros n) = [0] /\ bm_rastrigin_skew (zeros n) = [0] /\ bm_schaffer (zeros n) = [0] /\
+  bm_himmelblau [3; 2] = [0].
+Proof.
+  intro n.
+  rewrite ge_plane, ge_sphere, ge_cigar, ge_rosenbrock, ge_ackley, ge_bohachevsky, ge_griewank, ge_rastrigin,
+    ge_rastrigin_scaled, ge_rastrigin_skew, ge_schaffer, ge_himmelblau.
+  repeat split.
+  - apply opt_plane. - apply opt_sphere. - apply opt_cigar. - apply opt_rosenbrock. - apply opt_ackley.
+  - apply opt_bohachevsky. - apply opt_griewank. - apply opt_rastrigin. - apply opt_rastrigin_scaled.
+  - apply opt_rastrigin_skew. - apply opt_schaffer. - apply opt_himmelblau_1.
+Qed.
+
+(* the three other minima of Himmelblau are tabulated as 6-digit decimals: the value there is within 1e-9 of 0 *)
+Theorem C20_himmelblau_decimal_minima :
+  (exists v, bm_himmelblau [-2805118 / 1000000; 3131312 / 1000000] = [v] /\ 0 <= v <= 1 / 1000000000) /\
+  (exists v, bm_himmelblau [-3779310 / 1000000; -3283186 / 1000000] = [v] /\ 0 <= v <= 1 / 1000000000) /\
+  (exists v, bm_himmelblau [3584428 / 1000000; -1848126 / 1000000] = [v] /\ 0 <= v <= 1 / 1000000000).
+Proof.
+  destruct opt_himmelblau_234 as (A & B & C).
+  repeat split; eexists; (split; [rewrite ge_himmelblau; apply himmelblau_spec|]); assumption.
+Qed.
+
+
+(* section 2, exact part -- conjunction of the theorems above; carries the Print Assumptions of this group
+   (one call per group: each call costs about 1.7 s) *)
+Theorem C20_sec2_optima_exact : ltac:(let t := type of (conj C20_optima_exact C20_himmelblau_decimal_minima) in exact t).
+Proof. exact (conj C20_optima_exact C20_himmelblau_decimal_minima). Qed.
+Print Assumptions C20_sec2_optima_exact.
+
+(* Schwefel at x_i = 420.96874636: |f| <= 1e-4 N;  h1 at (8.6998, 6.7665): |f - 2| <= 1e-3  (interval arithmetic) *)
+Theorem C20_schwefel_optimum : forall n,
+  exists v, bm_schwefel (repeat (42096874636 / 100000000) n) = [v] /\ Rabs v <= INR n * (1 / 10000).
+Proof. intro n. rewrite ge_schwefel. apply opt_schwefel. Qed.
+
+Theorem C20_h1_optimum : exists v, bm_h1 [86998 / 10000; 67665 / 10000] = [v] /\ Rabs (v - 2) <= 1 / 1000.
+Proof. rewrite ge_h1. exact opt_h1. Qed.
+
+
+(* section 2, interval-arithmetic part -- conjunction of the theorems above; carries the Print Assumptions of this group
+   (one call per group: each call costs about 1.7 s) *)
+Theorem C20_sec2_optima_interval : ltac:(let t := type of (conj C20_schwefel_optimum C20_h1_optimum) in exact t).
+Proof. exact (conj C20_schwefel_optimum C20_h1_optimum). Qed.
+Print Assumptions C20_sec2_optima_interval.
+
+(* ================================================================================================ *)
+(* 3. front identities, for every input                                                             *)
+(* ================================================================================================ *)
+Theorem C20_dtlz1_sum : forall (x : list R) M, (1 <= M)%Z -> (M - 1 <= zlen x)%Z ->
+  Rsum (bm_dtlz1 x M) = (1 + dtlz_g13 (dtlz_xm x M)) / 2.
+Proof. intros x M H1 H2. rewrite ge_dtlz1 by assumption. apply dtlz1_sum. Qed.
+
+Theorem C20_dtlz2_6_norm : forall (x : list R) M alpha, (2 <= M)%Z -> (M - 1 <= zlen x)%Z ->
+  enorm (bm_dtlz2 x M) = 1 + dtlz_g2 (dtlz_xm x M) /\
+  enorm (bm_dtlz3 x M) = 1 + dtlz_g13 (dtlz_xm x M) /\
+  enorm (bm_dtlz4 x M alpha) = 1 + dtlz_g2 (dtlz_xm x M) /\
+  enorm (bm_dtlz5 x M) = 1 + dtlz_g2 (dtlz_xm x M) /\
+  enorm (bm_dtlz6 x M) = 1 + dtlz_g6 (dtlz_xm x M).
+Proof.
+  intros x M alpha H1 H2. rewrite ge_dtlz2, ge_dtlz3, ge_dtlz4, ge_dtlz5, ge_dtlz6 by (try assumption; lia).
+  repeat split.
+  - apply dtlz2_norm. - apply dtlz3_norm. - apply dtlz4_norm. - apply dtlz5_norm. - apply dtlz6_norm.
+Qed.
+
+Theorem C20_zdt_f2 : forall x : list R,
+  nth 1 (bm_zdt1 x) 0 = zdt_g x * zdt1_h (nth 0 (bm_zdt1 x) 0) (zdt_g x) /\
+  nth 1 (bm_zdt2 x) 0 = zdt_g x * zdt2_h (nth 0 (bm_zdt2 x) 0) (zdt_g x) /\
+  nth 1 (bm_zdt3 x) 0 = zdt_g x * zdt3_h (nth 0 (bm_zdt3 x) 0) (zdt_g x) /\
+  nth 1 (bm_zdt4 x) 0 = zdt4_g x * zdt1_h (nth 0 (bm_zdt4 x) 0) (zdt4_g x) /\
+  nth 1 (bm_zdt6 x) 0 = zdt6_g x * zdt2_h (nth 0 (bm_zdt6 x) 0) (zdt6_g x).
+Proof. intro x. rewrite ge_zdt1, ge_zdt2, ge_zdt3, ge_zdt4, ge_zdt6. apply zdt_f2. Qed.
+
+Theorem C20_zdt1_front : forall (x1 : R) n, (1 <= n)%nat -> bm_zdt1 (x1 :: repeat 0 n) = [x1; 1 - sqrt x1].
+Proof. intros. rewrite ge_zdt1. apply zdt1_front. assumption. Qed.
+
+
+(* section 3 -- conjunction of the theorems above; carries the Print Assumptions of this group
+   (one call per group: each call costs about 1.7 s) *)
+Theorem C20_sec3_fronts : ltac:(let t := type of (conj C20_dtlz1_sum (conj C20_dtlz2_6_norm (conj C20_zdt_f2 C20_zdt1_front))) in exact t).
+Proof. exact (conj C20_dtlz1_sum (conj C20_dtlz2_6_norm (conj C20_zdt_f2 C20_zdt1_front))). Qed.
+Print Assumptions C20_sec3_fronts.
+
+(* ================================================================================================ *)
+(* 4. decorators: what the wrapped function is fed                                                  *)
+(* ================================================================================================ *)
+Theorem C20_translate_feeds : forall t x : list R, length t = length x ->
+  length (tl_translate_arg t x) = length x /\
+  forall i, (i < length x)%nat -> nth i (tl_translate_arg t x) 0 = nth i x 0 - nth i t 0.
+Proof. intros t x. rewrite ge_translate_arg. apply translate_feeds. Qed.
+
+Theorem C20_translate_inverse : forall t y : list R, length t = length y ->
+  tl_translate_arg t (map2 Rplus y t) = y.
+Proof. intros t y. rewrite ge_translate_arg. apply translate_inverse. Qed.
+
+Theorem C20_scale_feeds : forall s x : list R, length s = length x ->
+  length (tl_scale_arg (tl_scale_factor s) x) = length x /\
+  forall i, (i < length x)%nat -> nth i (tl_scale_arg (tl_scale_factor s) x) 0 = nth i x 0 / nth i s 1.
+Proof. intros s x. rewrite ge_scale_arg, ge_scale_factor. apply scale_feeds. Qed.
+
+Theorem C20_scale_inverse : forall s y : list R, length s = length y -> Forall (fun v => v <> 0) s ->
+  tl_scale_arg (tl_scale_factor s) (map2 Rmult y s) = y.
+Proof. intros s y. rewrite ge_scale_arg, ge_scale_factor. apply scale_inverse. Qed.
+
+(* Hypothesis = contract of numpy.linalg.inv: the stored matrix is a left inverse of the rotation matrix *)
+Theorem C20_rotate_feeds : forall (M Minv : list (list R)) n (x y : list R),
+  (forall z, length z = n -> matvec Minv (matvec M z) = z) ->
+  length y = n -> matvec M y = x -> tl_rotate_arg Minv x = y.
+Proof. intros M Minv n x y. rewrite ge_rotate_arg. apply rotate_feeds. Qed.
+
+Theorem C20_noise_feeds : forall (fs : list (option R)) (x r : list R),
+  tl_noise_arg fs x = x /\
+  forall i, (i < length r)%nat -> (i < length fs)%nat ->
+    nth i (tl_noise_post fs x r) 0 = match nth i fs None with None => nth i r 0 | Some d => nth i r 0 + d end.
+Proof.
+  intros fs x r. rewrite ge_noise_arg, ge_noise_post. split; [reflexivity|]. intros i. apply noise_adds.
+Qed.
+
+Theorem C20_bin2float_feeds : forall (mn mx : R) nbits (b : list Z) i, (1 <= nbits)%Z -> Forall is_bit b ->
+  (i < length b / Z.to_nat nbits)%nat ->
+  let k := bits_value (block b (i * Z.to_nat nbits) (Z.to_nat nbits)) in
+  nth i (bin_bin2float_arg mn mx nbits b) 0 = mn + IZR k / IZR (2 ^ nbits - 1) * (mx - mn) /\
+  (0 <= k <= 2 ^ nbits - 1)%Z /\
+  (mn <= mx -> mn <= nth i (bin_bin2float_arg mn mx nbits b) 0 <= mx).
+Proof. intros mn mx nbits b i H1. rewrite ge_bin2float_arg by assumption. apply bin2float_feeds. assumption. Qed.
+
+Theorem C20_bin2float_length : forall (mn mx : R) nbits (b : list Z), (1 <= nbits)%Z ->
+  length (bin_bin2float_arg mn mx nbits b) = (length b / Z.to_nat nbits)%nat.
+Proof.
+  intros mn mx nbits b H1. rewrite ge_bin2float_arg by assumption. unfold spec_bin2float_arg.
+  rewrite map_length, seq_length. reflexivity.
+Qed.
+
+
+(* section 4 -- conjunction of the theorems above; carries the Print Assumptions of this group
+   (one call per group: each call costs about 1.7 s) *)
+Theorem C20_sec4_decorators : ltac:(let t := type of (conj C20_translate_feeds (conj C20_translate_inverse (conj C20_scale_feeds (conj C20_scale_inverse (conj C20_rotate_feeds (conj C20_noise_feeds (conj C20_bin2float_feeds C20_bin2float_length))))))) in exact t).
+Proof. exact (conj C20_translate_feeds (conj C20_translate_inverse (conj C20_scale_feeds (conj C20_scale_inverse (conj C20_rotate_feeds (conj C20_noise_feeds (conj C20_bin2float_feeds C20_bin2float_length))))))). Qed.
+Print Assumptions C20_sec4_decorators.
+
+(* ================================================================================================ *)
+(* 5. moving peaks                                                                                  *)
+(* ================================================================================================ *)
+Theorem C20_mp_eval_is_max : forall fs ps hs ws basis (x : list R),
+  let vals := peak_values fs ps hs ws x ++ match basis with Some b => [b x] | None => [] end in
+  vals <> [] ->
+  exists m, mp_call fs ps hs ws basis x = [m] /\ In m vals /\ forall v, In v vals -> v <= m.
+Proof. intros fs ps hs ws basis x. rewrite ge_mp_call. apply mp_eval_is_max. Qed.
+
+(* the regenerated peak-count arithmetic of changePeaks, iterated over any number of changes with any draws *)
+Definition count_after (minp maxp : Z) (sev : R) (n0 : Z) (draws : list (R * R)) : Z :=
+  fold_left (fun n d => mp_cp_count minp maxp sev n (fst d) (snd d)) draws n0.
+
+Theorem C20_mp_count_in_limits : forall minp maxp (sev : R) n0 draws,
+  (minp <= n0 <= maxp)%Z -> (minp <= count_after minp maxp sev n0 draws <= maxp)%Z.
+Proof.
+  intros minp maxp sev n0 draws H. unfold count_after.
+  replace (fold_left _ draws n0) with (mp_count_after minp maxp sev n0 draws).
+  - apply mp_count_in_limits. exact H.
+  - unfold mp_count_after. revert n0 H. induction draws as [|d r IH]; intros n0 H; [reflexivity|].
+    cbn [fold_left]. rewrite ge_mp_cp_count. apply IH. apply mp_count_step. exact H.
+Qed.
+
+
+(* section 5 -- conjunction of the theorems above; carries the Print Assumptions of this group
+   (one call per group: each call costs about 1.7 s) *)
+Theorem C20_sec5_moving_peaks : ltac:(let t := type of (conj C20_mp_eval_is_max C20_mp_count_in_limits) in exact t).
+Proof. exact (conj C20_mp_eval_is_max C20_mp_count_in_limits). Qed.
+Print Assumptions C20_sec5_moving_peaks.
+
+(* ================================================================================================ *)
+(* non-vacuity: the hypotheses are satisfiable and the statements speak about concrete values        *)
+(* ================================================================================================ *)
+Example C20_nonvacuous :
+  (2 <= 3)%Z /\ (3 - 1 <= zlen [1/10; 2/10; 3/10; 4/10; 5/10; 6/10; 7/10])%Z /\
+  length (dtlz_xc [1/10; 2/10; 3/10; 4/10; 5/10; 6/10; 7/10] 3) = 2%nat /\
+  Forall is_bit [1; 0; 1; 1]%Z /\ bin_royal_road1 [1; 1; 0; 1; 1; 1]%Z 2 = [4]%Z /\
+  bin_trap [1; 1; 1; 1]%Z = 4%Z /\ bin_chuang_f1 [0; 0; 0; 0; 1; 1; 1; 1; 0]%Z = [7]%Z /\
+  (1 <= count_after 1 10 (1/10) 1 [(1/4, 9/10); (3/4, 9/10)]%R <= 10)%Z.
+Proof.
+  repeat split; try (unfold zlen; cbn; lia); try reflexivity.
+  - repeat constructor; (left; reflexivity) || (right; reflexivity).
+  - apply C20_mp_count_in_limits. lia.
+  - apply C20_mp_count_in_limits. lia.
+Qed.
